@@ -61,6 +61,16 @@ func TestVerif_C01(t *testing.T) {
 	r.Require("adversarial_rejected", 100)
 }
 
+// TestVerif_C01_Race is the concurrent-receivers phase alone; the driver always builds it with
+// the race detector (a data race on the receive window is a violation of "for every schedule").
+func TestVerif_C01_Race(t *testing.T) {
+	r := verifkit.Start(t, "C01", "conc-race")
+	r.Rule("4-8 goroutines present the same 24 genuine ciphertexts to one endpoint concurrently, under the Go race detector; each ciphertext may be accepted at most once; " +
+		"non-trivial = round with >= 1 accept; distinct by (workers, accept vector)")
+	c01Concurrent(r)
+	r.Require("concurrent_accepts", 100)
+}
+
 func c01History(r *verifkit.R, phase string, ci int, rng *verifkit.Rand) {
 	a, b := c01Pair(rng)
 	ends := map[string]*c01End{"I": a, "R": b}
@@ -253,6 +263,9 @@ func c01History(r *verifkit.R, phase string, ci int, rng *verifkit.Rand) {
 // ciphertext may be accepted at most once in total.
 func c01Concurrent(r *verifkit.R) {
 	rounds := r.N(40, 600)
+	if r.Part == "conc-race" {
+		rounds = r.N(500, 3000)
+	}
 	r.Cases("conc", rounds, func(ci int, rng *verifkit.Rand) {
 		a, b := c01Pair(rng)
 		const msgs = 24
